@@ -4,11 +4,12 @@
 # stores the combined diff against /repo. Never edits /repo.
 set -e
 HERE="$(cd "$(dirname "$0")/.." && pwd)"
+BASEP="$2"; [ "$BASEP" = "-" ] || BASEP="$(readlink -f "$2")"
 SCR=/tmp/mkmut_$$
 rm -rf "$SCR"; cp -r /repo "$SCR"; rm -rf "$SCR/target" "$SCR/.git"
 cd "$SCR"
 git init -q . && git add -A >/dev/null && git -c user.email=a@b -c user.name=x commit -qm b >/dev/null
-[ "$2" = "-" ] || git apply "$(readlink -f "$2" 2>/dev/null || echo "$2")"
+[ "$BASEP" = "-" ] || git apply "$BASEP"
 python3 - "$3" "$4" "$5" <<'EOF'
 import sys
 f, old, new = sys.argv[1:4]
